@@ -97,6 +97,11 @@ class Translator:
         self.ret_kind_cache = {}
         self.raising_cache = {}
         self.dropped = []
+        # function-level isolation: a function the translator cannot express is left out of the generated module
+        # (and so is every function that calls it) instead of failing the whole run, so that a change in one
+        # function cannot disturb the checks of properties that do not depend on it.
+        self.failed = {}       # 'Module.fn' -> message (this arithmetic)
+        self.skip = set(config.get('_skip', ()))   # 'Module.fn' excluded by the caller (its Lean text did not compile)
 
     # ------------------------------------------------------------------ helpers
     def err(self, mod, node, msg):
@@ -209,6 +214,8 @@ class Translator:
     cur_arith = 'F'
 
     def is_translated(self, mod, fname):
+        if f'{mod.leanname}.{fname}' in self.failed:
+            return False
         return fname in self.mcfg_for(mod.modname, self.cur_arith).get('functions', [])
 
     def ret_kind(self, mod, fname, suffix=''):
@@ -307,12 +314,24 @@ class Translator:
                 body.append(self.emit_const(mod, n, node.value, arith))
             else:
                 key = f'{mod.leanname}.{n}'
-                if key in specs:
-                    for sp in specs[key]:
-                        body.append(self.emit_function(mod, node, arith, spec=sp))
-                else:
-                    body.append(self.emit_function(mod, node, arith))
-        missing = (wanted_funcs - set(mod.funcs)) | (set(wanted_consts) - set(mod.consts))
+                if key in self.skip:
+                    self.failed[key] = 'excluded: the Lean text generated for it did not compile'
+                    body.append(f'-- NOT TRANSLATED: {n}: {self.failed[key]}\n')
+                    continue
+                mark = len(self.dropped)
+                try:
+                    if key in specs:
+                        txt = [self.emit_function(mod, node, arith, spec=sp) for sp in specs[key]]
+                    else:
+                        txt = [self.emit_function(mod, node, arith)]
+                    body += txt
+                except TranslateError as e:
+                    del self.dropped[mark:]
+                    self.failed[key] = str(e)
+                    body.append(f'-- NOT TRANSLATED: {n}: ' + str(e).replace('\n', ' ') + '\n')
+        for n in sorted(wanted_funcs - set(mod.funcs)):
+            self.failed[f'{mod.leanname}.{n}'] = f'{mod.path}: target function {n} not found in source'
+        missing = set(wanted_consts) - set(mod.consts)
         if missing:
             raise TranslateError(f'{mod.path}: targets not found in source: {sorted(missing)}')
         for cname, lst in catalogue.items():
@@ -570,6 +589,8 @@ def emit_dispatch(tr, config):
             continue
         tr.cur_arith = 'F'
         for fname in mcfg.get('functions', []):
+            if f'{mod.leanname}.{fname}' in tr.failed or fname not in mod.funcs:
+                continue
             fn = mod.funcs[fname]
             args = fn.args.args
             defaults = [None] * (len(args) - len(fn.args.defaults)) + list(fn.args.defaults)
@@ -2122,45 +2143,78 @@ class Tail:
         self.live = set(live)
 
 
+def stub_module(tr, modname, arith, msg):
+    """a module that could not be translated as a whole: an empty namespace, so that importers still build; every
+    function of it counts as failed"""
+    mcfg = tr.mcfg_for(modname, arith)
+    mod = tr.modules[modname]
+    for fn in mcfg.get('functions', []):
+        tr.failed.setdefault(f'{mod.leanname}.{fn}', 'module not translated: ' + msg)
+    lines = [f'import GeodeVerif.Num.{PRELUDE[arith]}',
+             f'-- GENERATED by translator/py2lean.py from {mcfg["path"]} — do not edit.',
+             '-- MODULE NOT TRANSLATED: ' + msg.replace('\n', ' '),
+             f'namespace Gen{arith}.{mod.leanname}', f'end Gen{arith}.{mod.leanname}', '']
+    return '\n'.join(lines)
+
+
+def write_if_changed(path, txt, changed):
+    os.makedirs(os.path.dirname(path), exist_ok=True)
+    old = open(path).read() if os.path.exists(path) else None
+    if old != txt:
+        open(path, 'w').write(txt)
+        changed.append(path)
+
+
 def main():
     import argparse
     ap = argparse.ArgumentParser()
     ap.add_argument('--repo', default='/repo')
     ap.add_argument('--config', default=os.path.join(os.path.dirname(__file__), 'targets.json'))
     ap.add_argument('--out', default=os.path.join(os.path.dirname(__file__), '..', 'lean', 'GeodeVerif'))
+    ap.add_argument('--skip', default='', help='comma-separated Module.function names to leave out (all arithmetics)')
     args = ap.parse_args()
     config = json.load(open(args.config))
+    config['_skip'] = [x for x in args.skip.split(',') if x]
     changed = []
+    status = {'failed': {}, 'modules_failed': {}}
     try:
         for arith in config['ariths']:
             tr = Translator(args.repo, config)
+            modfail = {}
             for modname in config['module_order']:
                 mcfg = config['modules'][modname]
                 if arith not in mcfg.get('ariths', config['ariths']):
                     continue
-                txt = tr.emit_module(modname, arith)
                 path = os.path.join(args.out, f'Gen{arith}', mcfg['lean'] + '.lean')
-                os.makedirs(os.path.dirname(path), exist_ok=True)
-                old = open(path).read() if os.path.exists(path) else None
-                if old != txt:
-                    open(path, 'w').write(txt)
-                    changed.append(path)
+                blocked = [d for d in tr.mcfg_for(modname, arith).get('deps', []) if d in modfail]
+                try:
+                    if blocked:
+                        raise TranslateError(f'depends on {blocked[0]}, which could not be translated')
+                    txt = tr.emit_module(modname, arith)
+                except TranslateError as e:
+                    if modname == 'geodepy.constants':
+                        raise       # nothing can be generated without the classes and constants
+                    modfail[modname] = str(e)
+                    txt = stub_module(tr, modname, arith, str(e))
+                write_if_changed(path, txt, changed)
+            status['failed'][arith] = dict(tr.failed)
+            status['modules_failed'][arith] = modfail
         if 'F' in config['ariths']:
             tr = Translator(args.repo, config)
             for modname in config['module_order']:
+                if modname in status['modules_failed']['F']:
+                    stub_module(tr, modname, 'F', status['modules_failed']['F'][modname])
+                    continue
                 tr.emit_module(modname, 'F')     # populates class tables
             txt, sigs = emit_dispatch(tr, config)
-            path = os.path.join(args.out, 'GenF', 'Dispatch.lean')
-            old = open(path).read() if os.path.exists(path) else None
-            if old != txt:
-                open(path, 'w').write(txt)
-                changed.append(path)
+            write_if_changed(os.path.join(args.out, 'GenF', 'Dispatch.lean'), txt, changed)
             sp = os.path.join(args.out, 'GenF', 'signatures.json')
             json.dump(sigs, open(sp, 'w'), indent=1, sort_keys=True)
     except TranslateError as e:
         print(f'TRANSLATE-ERROR {e}')
         sys.exit(3)
-    print(json.dumps({'changed': changed}))
+    json.dump(status, open(os.path.join(args.out, 'GenF', 'regen_status.json'), 'w'), indent=1, sort_keys=True)
+    print(json.dumps({'changed': changed, 'failed': status['failed'], 'modules_failed': status['modules_failed']}))
 
 
 if __name__ == '__main__':
